@@ -879,6 +879,9 @@ func runC13(x *X) {
 	x.Explore("column-handle-across-growth", ExploreOpts{ShardDepth: 3, Bound: "tables of 1/2/5/9 columns x handle of column 1 | the last column x growth to w+1/10/11/17/33 columns by AddRowItems | AddHeaders | Add on the attached row x column {PRECELL, POSTCELL} x {ITSELF, CELL} registered through the old handle before | after the growth x 1-2 passes"}, func(c *Chooser) {
 		c13ColumnGrowth(x, c)
 	})
+	x.Explore("row-callback-appends-cell", ExploreOpts{ShardDepth: 2, Bound: "rows of 1..3 cells x 4 constructors x appending ROW callback on the table | the row itself x recording add-time CELL callback on the table | column 1 x header or not"}, func(c *Chooser) {
+		c13RowCallbackAppends(x, c)
+	})
 	refShapes := []c13Shape{{2, []int{2, 2}}, {1, []int{1}}, {-1, []int{2, 1}}, {2, []int{2, -1}}}
 	x.Explore("refusal-then-valid", ExploreOpts{ShardDepth: 3, Bound: fmt.Sprintf("%d shapes x (any supported registration ; an unsupported one on a column or cell ; a supported one on that owner) all made at the start | after all steps x 1 pass", len(refShapes))}, func(c *Chooser) {
 		shape := refShapes[c.Choose(len(refShapes))]
